@@ -281,9 +281,12 @@ def build_description(rng):
         recipe, hdr0, groups = _pools[fam]
         npic = rng.randrange(0, 5)
         default_pics = False
+        default_frags = False
+        omitted_fragment_defaults = False
         if rng.random() < 0.12:
             npic = rng.randrange(0, 3)
             default_pics = True
+            default_frags = rng.random() < 0.4
         hdr = copy.deepcopy(hdr0)
         sh = hdr["sequence_header"]
         vpd = sh["video_parameters"]
@@ -427,13 +430,31 @@ def build_description(rng):
         profile = fields["parse_parameters.profile"]
         for i in range(npic):
             if default_pics:
-                pc = ParseCodes.high_quality_picture if profile == 3 else ParseCodes.low_delay_picture
-                du = B.DataUnit(parse_info=B.ParseInfo(parse_code=pc))
+                if default_frags:
+                    # a first fragment with every field omitted: documented defaults make it an initial
+                    # fragment (fragment_slice_count 0), i.e. a new picture each time
+                    pc = ParseCodes.high_quality_picture_fragment if profile == 3 else ParseCodes.low_delay_picture_fragment
+                    du = B.DataUnit(parse_info=B.ParseInfo(parse_code=pc))
+                    if rng.random() < 0.5:
+                        du["fragment_parse"] = B.FragmentParse()
+                        if rng.random() < 0.5:
+                            du["fragment_parse"]["fragment_header"] = B.FragmentHeader()
+                else:
+                    pc = ParseCodes.high_quality_picture if profile == 3 else ParseCodes.low_delay_picture
+                    du = B.DataUnit(parse_info=B.ParseInfo(parse_code=pc))
+                    if rng.random() < 0.5:
+                        du["picture_parse"] = B.PictureParse()
                 g = [du]
-                if rng.random() < 0.5:
-                    du["picture_parse"] = B.PictureParse()
             else:
                 g = copy.deepcopy(groups[i % len(groups)])
+                for du in g:
+                    # omit fragment header fields whose value is the documented default
+                    fh = du.get("fragment_parse", {}).get("fragment_header")
+                    if fh is not None:
+                        for k in ("fragment_slice_count", "fragment_data_length"):
+                            if fh.get(k) == 0 and rng.random() < 0.5:
+                                del fh[k]
+                                omitted_fragment_defaults = True
             mode = rng.choice(["auto", "auto", "omit", "explicit"])
             if mode == "explicit":
                 pn = rng.choice([0, 5, 2 ** 32 - 1, 2 ** 32 - 2, rng.randrange(2 ** 32)])
@@ -446,8 +467,9 @@ def build_description(rng):
                     tpd = du.get("picture_parse", {}).get("wavelet_transform", {}).get("transform_parameters")
                     if tpd is not None:
                         tpd.pop("extended_transform_parameters", None)
-                if "fragment_parse" in du:
-                    hd = du["fragment_parse"]["fragment_header"]
+                if "fragment_parse" in du or (default_pics and default_frags):
+                    hd = (du.setdefault("fragment_parse", B.FragmentParse()).setdefault("fragment_header", B.FragmentHeader())
+                          if (mode != "omit" or "fragment_header" in du.get("fragment_parse", {})) else None)
                     minv = 3
                 else:
                     hd = du.setdefault("picture_parse", B.PictureParse()).setdefault("picture_header", B.PictureHeader()) if (mode != "omit" or "picture_parse" in du) else None
@@ -460,7 +482,7 @@ def build_description(rng):
                     elif mode == "auto" and rng.random() < 0.5:
                         hd["picture_number"] = AUTO
                 dus.append(du)
-                units.append({"kind": "fragment" if "fragment_parse" in du else "picture", "pn": pn,
+                units.append({"kind": "fragment" if ("fragment_parse" in du or (default_pics and default_frags)) else "picture", "pn": pn,
                               "pn_mode": mode, "default": default_pics})
                 if rng.random() < 0.25:
                     payload = _payload(rng)
@@ -504,7 +526,8 @@ def build_description(rng):
                     u["explicit_" + fld] = v
         seqs.append(B.Sequence(data_units=dus))
         model.append({"units": units, "explicit_version": explicit_version, "min_version": minv, "family": fam,
-                      "mv_mode": mv_mode, "replaced": replaced, "npic": npic, "default_pics": default_pics})
+                      "mv_mode": mv_mode, "replaced": replaced, "npic": npic, "default_pics": default_pics,
+                      "default_frags": default_frags, "omitted_fragment_defaults": omitted_fragment_defaults})
     return seqs, model
 
 
@@ -515,7 +538,7 @@ PC_KIND = {0x00: "sequence_header", 0x10: "end_of_sequence", 0x20: "auxiliary_da
 def run_case(case, ctx):
     rng = random.Random(case["dseed"])
     seqs, model = build_description(rng)
-    sig = [[(u["kind"], u.get("pn_mode"), tuple(sorted(k for k in u if k.startswith("explicit_")))) for u in m["units"]]
+    sig = [[(u["kind"], u.get("pn_mode"), m["default_frags"], m["omitted_fragment_defaults"], tuple(sorted(k for k in u if k.startswith("explicit_")))) for u in m["units"]]
            + [m["mv_mode"], m["explicit_version"], m["family"], m["replaced"], m["default_pics"]] for m in model]
     nontrivial = any(m["npic"] for m in model)
     ctx.seen(jsonx.key_hash(sig), nontrivial=nontrivial)
@@ -528,6 +551,11 @@ def run_case(case, ctx):
                       detail=traceback.format_exc()[-2000:])
         return
     ctx.count("serialised")
+    for m in model:
+        if m["default_frags"] and m["npic"]:
+            ctx.count("sequences_with_default_only_fragments")
+        if m["omitted_fragment_defaults"]:
+            ctx.count("sequences_with_omitted_fragment_header_defaults")
     # ---- independent structure reading
     positions = scan_units(data)
     nunits = sum(len(m["units"]) for m in model)
@@ -658,7 +686,8 @@ def floor(agg, tier):
     miss = []
     for k, n in (("serialised", 12000), ("offsets_checked", 80000), ("picture_numbers_checked", 30000), ("payloads_checked", 5000),
                  ("header_fields_checked", 100000), ("versions_checked:auto", 5000), ("versions_checked:omit", 5000),
-                 ("versions_checked:explicit", 3000), ("explicit_offsets_checked", 5000), ("default_pictures_checked", 500)):
+                 ("versions_checked:explicit", 3000), ("explicit_offsets_checked", 5000), ("default_pictures_checked", 250),
+                 ("sequences_with_default_only_fragments", 200), ("sequences_with_omitted_fragment_header_defaults", 1500)):
         if c.get(k, 0) < n * s:
             miss.append("%s = %d < %d" % (k, c.get(k, 0), n * s))
     if c.get("ambiguous_prefix_scan", 0) > 0.001 * c.get("serialised", 1):
